@@ -1542,7 +1542,8 @@ fn oracle(cx: &mut Ctx, decl_occ: Option<(usize, usize, String)>, edits: &[(usiz
     if cx.base_run.is_none() {
         cx.base_run = Some(run_trace_forked(&cx.texts, &cx.trace));
     }
-    let r2 = run_trace_forked(&texts2, &cx.trace);
+    // (when the base project does not compile the run-time clauses are not evaluated: no need to run the renamed one)
+    let r2 = if cx.base_run.as_ref().unwrap().is_err() { Err(String::new()) } else { run_trace_forked(&texts2, &cx.trace) };
     let (comp_ok, beh_ok) = match (cx.base_run.as_ref().unwrap(), &r2) {
         // the runtime binds names case-sensitively in places (see the report): a project that spells a
         // reference differently from its declaration does not run as analysed, so run-time behaviour
@@ -1935,6 +1936,9 @@ fn gen_ns_project(rng: &mut Rng, echo_mode: bool) -> NsProject {
     // declarations outside the namespace that name its members in every kind of type position
     let (mut itf, implfb, child, outrec, outal, mk, mka) = (name(rng), name(rng), name(rng), name(rng), name(rng), name(rng), name(rng));
     let (fp, fq, vo, vch, vi) = (name(rng), name(rng), name(rng), name(rng), name(rng));
+    // a sibling of the innermost namespace with a type of its own (`Outer.Sib.SibT` next to `Outer.Inner.*`)
+    let (sib, mut sibt, vsib) = (name(rng), name(rng), name(rng));
+    let with_sib = matches!(form, "nested2" | "nested3" | "dotted_nested") && rng.bool();
     let with_mid = depth >= 2 && rng.bool();
     let with_alias = rng.bool();
     let list_fields = rng.bool();
@@ -1963,12 +1967,19 @@ fn gen_ns_project(rng: &mut Rng, echo_mode: bool) -> NsProject {
                 segs.push(s.clone());
             }
         }
+        if with_sib {
+            // a member named like the sibling of its enclosing namespace; the sibling's type named like a segment
+            segs.push(sib.clone());
+        }
         let mut cands: Vec<&mut String> = vec![&mut sample, &mut pack, &mut ctl, &mut scale];
         if with_alias {
             cands.push(&mut alias);
         }
         if with_itf {
             cands.push(&mut itf);
+        }
+        if with_sib {
+            cands.push(&mut sibt);
         }
         let want = if rng.chance(1, 3) { 2 } else { 1 };
         for _ in 0..want {
@@ -2018,6 +2029,13 @@ fn gen_ns_project(rng: &mut Rng, echo_mode: bool) -> NsProject {
             w.raw("TYPE ");
             w.id(&mid, "mid_decl");
             w.raw(" : DINT;\nEND_TYPE\n");
+        }
+        if with_sib && i == depth - 1 && open_blocks > 0 {
+            w.raw("NAMESPACE ");
+            w.id(&sib, "ns_decl");
+            w.raw("\nTYPE ");
+            w.id(&sibt, "type_decl");
+            w.raw(" : DINT;\nEND_TYPE\nEND_NAMESPACE\n");
         }
         w.raw("NAMESPACE ");
         w.id(seg, "ns_decl");
@@ -2244,6 +2262,16 @@ fn gen_ns_project(rng: &mut Rng, echo_mode: bool) -> NsProject {
         w.id(&vi, "local_decl");
         w.raw(" : ");
         w.id(&implfb, "ofb_use");
+        w.raw(";\n");
+    }
+    if with_sib {
+        // (a USING of the inner namespace does not reach its sibling: always by the full path)
+        let mut sp = path[..depth - 1].to_vec();
+        sp.push(sib.clone());
+        w.raw("    ");
+        w.id(&vsib, "local_decl");
+        w.raw(" : ");
+        w.quse(&sp, true, &sibt, "type_use_qual", "type_use_qual");
         w.raw(";\n");
     }
     w.raw("    ");
